@@ -48,12 +48,21 @@ CHECKS = {
    text="Theorems: in every state reachable by any sequence of admissible operations (corrections in own or reference "
         "plane, copy, re-wrap) the six conversions are pairwise inverse and commute (nine identities each for gWCS with "
         "arbitrary bijective pipeline pieces and for FITS with arbitrary bijective distortion); conversions are pointwise "
-        "maps so shape is preserved. Correspondence: det_to_tanp / sky chart positions of the models vs real correctors "
-        "after histories. Oracle: all round trips and triangles on real correctors for scalar, 0-d, (n,), (1,), (0,), "
+        "maps so shape is preserved. The V2V3 <-> tangent-plane piece of the gWCS pipeline is also modelled CONCRETELY "
+        "(_tpcorr_init / _v2v3_to_tpcorr_from_full: unit conversion, s2c, RotationSequence3D 'zyx', c2tan, affine, tan2c, "
+        "inverse rotation, c2s): the rotation sequence is orthogonal for all angles and its .inverse is the transpose; "
+        "U(Uinv x) = x for EVERY plane point; Uinv(U v) = v exactly on the open hemisphere facing the reference direction "
+        "(decidable domain predicate, shown necessary); total_corr is inverted by its inverse, composes as the affine maps "
+        "compose (also through _tpcorr_combine_affines), and the nine corrector identities hold for the concrete pipeline "
+        "on that domain (D and R still arbitrary bijections). Correspondence: det_to_tanp / sky chart positions of the "
+        "models vs real correctors after histories; the real total_corr, its inverse, the partial transforms, the "
+        "rotation matrices and the accumulated affines vs the Float driver, the Cartesian core in exact rationals. Oracle: "
+        "textbook gnomonic projection in long double, ground truth by construction; all round trips and triangles on real correctors for scalar, 0-d, (n,), (1,), (0,), "
         "(m,n) inputs and the WCSImageCatalog wrappers.",
-   note="Invertibility of the fixed pieces (wcslib iteration, gwcs numerical inverses) and numpy broadcasting are checked "
-        "by the oracle, not proved.",
-   technique="Lean 4 proof (state invariant by induction over operation sequences) + differential correspondence",
+   note="Invertibility of the remaining fixed pieces (detector->V2V3 distortion, V2V3->sky, wcslib iteration, gwcs "
+        "numerical inverses) and numpy broadcasting are checked by the oracle, not proved; real arithmetic stands for floats.",
+   technique="Lean 4 proof (state invariant by induction over operation sequences; real-analysis lemmas for the sphere) "
+             "+ differential correspondence",
    ref="5/C03"),
  'C04': dict(
    text="Theorems: gWCS - two corrections equal the single (M2M1, M2s1+s2) as STATES, in the own plane and in one fixed "
